@@ -6,6 +6,7 @@ union, schema, and fields in the query), requests supplying inputs as literals, 
 variables, every hook suspending at a simulator point.  Hooks apply non-commuting tags to string
 values and `_t` trails to input objects, and log (hook, instance, directive args).  The expected
 composition is folded directly from the property's statement."""
+import asyncio
 import json
 
 from simv import boot  # noqa: F401
@@ -58,13 +59,21 @@ class Inst:
             s += ", k: %d" % self.k
         return s + ")"
 
-    def args(self, variables):
+    def args(self, variables, arr=None):
         k = 5
         if self.kvar:
             k = variables[self.kvar]
         elif self.k is not None:
             k = self.k
-        return {"n": self.id, "k": k}
+        out = {"n": self.id, "k": k}
+        if self.d in DIRS and arr is not None:
+            # the tagging directives take an argument of scalar type A (default "z"): coercing a
+            # directive instance's arguments runs A's own type-level hooks every time
+            a = "in:z"
+            for au in reversed(arr.at.get("A", [])):
+                a = tag_in(au.id, a)
+            out["a"] = a
+        return out
 
 
 class Arr:
@@ -127,7 +136,8 @@ def trail(iid, v):
 def make_directive(dname, sname):
     class Tagger:
         async def _pre(self, hook, da, ctx):
-            rt = ctx.rt
+            # some call paths coerce a directive's own arguments without a context (ctx is None there)
+            rt = ctx.rt if ctx is not None else asyncio.get_running_loop().default_rt
             rt.loop.ev("hook", rt.rid, hook, da.get("n"), canon(da))
             rt.hooks.append((hook, da.get("n"), dict(da)))
             await rt.loop.point(("hook", hook, da.get("n")))
@@ -175,10 +185,16 @@ class S:
 def build(tape):
     t = tape.sub("schema")
     a = Arr(t)
+    a.at["A"] = []
+    for _ in range(t.weighted([(2, 0), (2, 1), (1, 2)])):
+        a.n += 1
+        a.at["A"].append(Inst("au", "A%d" % a.n, t.choose([None, 2])))
     for key in ("schema", "S", "E", "E.A", "E.B", "In", "In.f", "In.g", "In.l", "In.sub", "echo.a", "echo.i", "echo.e", "echo.l",
                 "Query.echo", "Query.o", "Query.u", "O", "O.s", "O.e", "O.l", "P", "P.s", "F", "U"):
         a.gen(key)
-    sdl = "\n".join("directive @%s(n: String!, k: Int = 5) on %s" % (d, LOCS) for d in DIRS) + """
+    sdl = "\n".join("directive @%s(n: String!, k: Int = 5, a: A = \"z\") on %s" % (d, LOCS) for d in DIRS) + """
+directive @au(n: String!, k: Int = 5) on SCALAR
+scalar A%s
 scalar S%s
 enum E%s { A%s B%s C }
 input In%s { f: S%s g: E%s l: [S!]%s sub: In%s }
@@ -188,7 +204,7 @@ type P implements F%s { s: S%s }
 union U%s = O | P
 type Query { echo(a: S%s, i: In%s, e: E%s, l: [S!]%s): String%s  o: O%s  u: [U]%s  fs: [F] }
 schema%s { query: Query }
-""" % (a.s("S"), a.s("E"), a.s("E.A"), a.s("E.B"), a.s("In"), a.s("In.f"), a.s("In.g"), a.s("In.l"), a.s("In.sub"), a.s("F"),
+""" % (a.s("A"), a.s("S"), a.s("E"), a.s("E.A"), a.s("E.B"), a.s("In"), a.s("In.f"), a.s("In.g"), a.s("In.l"), a.s("In.sub"), a.s("F"),
        a.s("O"), a.s("O.s"), a.s("O.e"), a.s("O.l"), a.s("P"), a.s("P.s"), a.s("U"),
        a.s("echo.a"), a.s("echo.i"), a.s("echo.e"), a.s("echo.l"), a.s("Query.echo"), a.s("Query.o"), a.s("Query.u"), a.s("schema"))
     return a, sdl
@@ -203,7 +219,10 @@ class Expect:
         self.hooks = []  # (hook kind, instance id, args)
 
     def fire(self, kind, inst):
-        self.hooks.append((kind, inst.id, inst.args(self.vars)))
+        if inst.d in DIRS:
+            for au in reversed(self.a.at.get("A", [])):
+                self.hooks.append(("input", au.id, au.args(self.vars)))
+        self.hooks.append((kind, inst.id, inst.args(self.vars, self.a)))
 
     def apply(self, key, kind, fn, v):
         for inst in reversed(self.a.at.get(key, [])):
@@ -345,6 +364,7 @@ def run_one(seed, preset=None, tier="quick", want_case=False):
         return out
 
     plans = []
+    merged = [0]
     for i in range(n_echo):
         alias = "e%d" % i
         args_txt, sem = [], {}
@@ -370,6 +390,14 @@ def run_one(seed, preset=None, tier="quick", want_case=False):
             sem["l"] = (lv, mode)
         qd = query_dirs()
         fields.append("%s: echo%s%s" % (alias, "(" + ", ".join(args_txt) + ")" if args_txt else "", "".join(" " + q.sdl() for q in qd)))
+        if dt.chance(25):
+            # the same response key selected a second time (merged field nodes) with its own directives:
+            # one field execution governed by the directives of both nodes, first node outermost
+            qd2 = query_dirs()
+            # kept in one entry so that shuffling the selections keeps the two nodes in this order
+            fields[-1] += " %s: echo%s%s" % (alias, "(" + ", ".join(args_txt) + ")" if args_txt else "", "".join(" " + q.sdl() for q in qd2))
+            qd = qd + qd2
+            merged[0] += 1
         plans.append(("echo", alias, sem, qd))
     if dt.chance(60):
         qd = query_dirs()
@@ -397,7 +425,11 @@ def run_one(seed, preset=None, tier="quick", want_case=False):
     expected = {}
     order = [f.split(":")[0].split("{")[0].split(" ")[0].split("(")[0].strip() for f in fields]
     byalias = {p[1]: p for p in plans}
+    seen_alias = set()
     for alias in order:
+        if alias in seen_alias:
+            continue
+        seen_alias.add(alias)
         kind, _, sem, qd = byalias[alias]
         if kind == "echo":
             args = {}
@@ -457,14 +489,16 @@ def run_one(seed, preset=None, tier="quick", want_case=False):
     loop = SimLoop(tape.sub("sched"), sch[0], sch[1], sch[2])
     rt = Runtime(0, loop, None)
     rt.hooks = []
+    loop.default_rt = rt
     ctx = ReqCtx(rt)
     out = Out()
     out.rt = rt
 
     async def main():
-        for d in DIRS:
+        for d in DIRS + ("au",):
             make_directive(d, name)
         Scalar("S", schema_name=name)(S())
+        Scalar("A", schema_name=name)(S())
 
         def res(fn):
             async def r(parent, args, c, info):
@@ -521,6 +555,8 @@ def run_one(seed, preset=None, tier="quick", want_case=False):
     r["metrics"] = {"hook_invocations": len(rt.hooks), "directive_instances": arr.n + qn[0]}
     r["probes"] = {"hook_" + k: v for k, v in kinds.items()}
     r["probes"]["query_side_directive"] = int(qn[0] > 0)
+    r["probes"]["merged_field_nodes_with_directives"] = merged[0]
+    r["probes"]["directive_argument_type_has_hooks"] = int(bool(arr.at.get("A")))
     r["probes"]["directive_arg_through_variable"] = int("k: $" in text)
     r["probes"]["nested_variable_in_object_literal"] = int(any(p[0] == "echo" and "i" in p[2] and p[2]["i"][1] == "nested" for p in plans))
     r["faults"] = {}
